@@ -4,6 +4,7 @@
 #include <trompeloeil.hpp>
 
 #include <atomic>
+#include <functional>
 #include <memory>
 #include <stdexcept>
 #include <string>
@@ -54,10 +55,15 @@ using MakeFn = EP (*)(void*, Inst&);
 template <class M, EP (*F)(M&, Inst&)>
 EP maker(void* m, Inst& x) { return F(*static_cast<M*>(m), x); }
 
+// scoped variant: the expectation is a local of the callee and lives exactly as long as the continuation runs
+using ScopedFn = void (*)(void*, Inst&, std::function<void()>&);
+template <class M, void (*F)(M&, Inst&, std::function<void()>&)>
+void smaker(void* m, Inst& x, std::function<void()>& k) { F(*static_cast<M*>(m), x, k); }
+
 struct ShapeReg {
-  ShapeReg(int id, const char* file, MakeFn a, MakeFn m);
+  ShapeReg(int id, const char* file, MakeFn a, MakeFn m, ScopedFn sa, ScopedFn sm);
 };
-struct ShapeFns { const char* file; MakeFn make[2]; };
+struct ShapeFns { const char* file; MakeFn make[2]; ScopedFn scoped[2]; };
 const ShapeFns& shape_fns(int id);
 
 template <class... T> inline void ignore(T const&...) {}
